@@ -326,6 +326,9 @@ def _scribble(x):
         pass
 
 
+OTHERS = []  # (second input network, its deep snapshot before the call) registered by a call, checked by run_case
+
+
 def call_method(H, m, picks):
     import pickle
 
@@ -335,7 +338,24 @@ def call_method(H, m, picks):
     if m == "dual":
         return H.dual()
     if m == "__lshift__":
-        return H << nets.clone(H)
+        # the other operand shares nodes and edge IDs with H but carries other attribute values on them, plus something of its own;
+        # it is an input as well: it is registered and compared afterwards, and the union is formed in both orders
+        other = nets.clone(H)
+        try:
+            for i, n in enumerate(list(other.nodes)):
+                other.nodes[n]["__rhs__"] = i
+                if i % 2:
+                    other.nodes[n]["color"] = "rhs"
+            for i, e in enumerate(list(other.edges)):
+                other.edges[e]["__rhs__"] = i
+            other.add_node("__only_rhs__", side="rhs")
+            other["__rhs__"] = k
+        except Exception:  # noqa: BLE001
+            pass
+        OTHERS.append((other, nets.snap_deep(other)))
+        r1 = H << other
+        r2 = other << H
+        return r1, r2
     if m == "cleanup":
         if isinstance(H, xgi.DiHypergraph):
             return H.cleanup(isolates=bool(k % 2), relabel=bool(k % 3), in_place=False)
@@ -389,6 +409,7 @@ def run_case(case, ctx):
     before = nets.snap_deep(H)
     tmp = tempfile.mkdtemp(prefix="xgi_c08_")
     status = "returned"
+    del OTHERS[:]
     try:
         try:
             if name.startswith("fn:"):
@@ -415,6 +436,9 @@ def run_case(case, ctx):
         diff = nets.diff_deep(before, after)
         ctx.check(not diff, ("mutated", name, "+".join(diff)), lambda: "%s (%s) changed %r: before %r after %r" % (
             name, status, diff, {k: before[k] for k in diff}, {k: after[k] for k in diff}))
+        for other, ob in OTHERS:
+            od = nets.diff_deep(ob, nets.snap_deep(other))
+            ctx.check(not od, ("mutated", name, "second-operand", "+".join(od)), lambda: "%s (%s) changed its second input: %r" % (name, status, od))
         ctx.event(status + ":" + name)
         ctx.mark(status == "returned" and len(before["edges"]) >= 2)
     finally:
